@@ -199,7 +199,7 @@ class _NPathSegment:
     quoted: bool
 
 
-_NPATH_IDENTIFIER_RE = re.compile(r"^[A-Za-z_][A-Za-z0-9_']*$")
+_NPATH_IDENTIFIER_RE = re.compile(r"^[A-Za-z_][A-Za-z0-9_']*\Z")
 
 
 def _parse_npath(npath: str) -> list[_NPathSegment]:
@@ -253,12 +253,14 @@ def _parse_npath(npath: str) -> list[_NPathSegment]:
             finalize_segment()
             continue
         if ch == '"':
-            if buffer:
+            if buffer or quoted_segment:
                 raise ValueError(
                     "Quoted NPath segments must start at the segment boundary"
                 )
             in_quotes = True
             continue
+        if quoted_segment:
+            raise ValueError("Quoted NPath segments must end at the segment boundary")
         buffer.append(ch)
 
     if escape:
